@@ -49,6 +49,14 @@ type PropCfg struct {
 	Rule      string            `json:"rule"`
 	Assumptions []string        `json:"assumptions"`
 	NativeReplay bool           `json:"native_replay"`
+	StressReplay int            `json:"stress_replay"` // schedule-dependent harness: number of native attempts
+}
+
+func maxInt(a, b int) int {
+	if a > b {
+		return a
+	}
+	return b
 }
 
 type Registry map[string]*PropCfg
@@ -465,13 +473,13 @@ func report(prop, tier string, pc *PropCfg, sh *Shared, entries []string, t0 tim
 			continue
 		}
 		rp := filepath.Join(*flagVerif, "replay", fmt.Sprintf("%s-%s.json", prop, strings.ReplaceAll(strings.TrimPrefix(label, prop+"/"), "/", "_")))
-		status := writeReplay(rp, first, ld, sh.params, pc.NativeReplay)
+		status := writeReplay(rp, first, ld, sh.params, pc.NativeReplay || pc.StressReplay > 0, maxInt(1, pc.StressReplay))
 		replays++
 		if isKnown {
 			continue
 		}
 		nviol++
-		if status == "not-reproduced" || status == "undecodable-model" || status == "error" {
+		if pc.StressReplay == 0 && (status == "not-reproduced" || status == "undecodable-model" || status == "error") {
 			fmt.Printf("INCONCLUSIVE property=%s reason=counterexample for %s did not reproduce natively (replay=%s)\n", prop, label, rp)
 			if exit == 0 {
 				exit = 2
@@ -614,7 +622,7 @@ func writeEvidence(prop, tier string, pc *PropCfg, sh *Shared, entries []string,
 	os.WriteFile(filepath.Join(*flagVerif, "evidence", prop+".json"), b, 0o644)
 }
 
-func writeReplay(path string, v *Violation, ld *Loaded, params map[string]int, native bool) string {
+func writeReplay(path string, v *Violation, ld *Loaded, params map[string]int, native bool, attempts int) string {
 	rec, ok := buildReplay(v, params)
 	status := "not-attempted"
 	write := func() {
@@ -629,7 +637,7 @@ func writeReplay(path string, v *Violation, ld *Loaded, params map[string]int, n
 	}
 	write()
 	if native && !*flagNoReplay {
-		st, out := nativeReplay(rec, path)
+		st, out := nativeReplay(rec, path, attempts)
 		status = st
 		if len(out) > 4000 {
 			out = out[:4000]
